@@ -328,7 +328,7 @@ pub const DIR_CLASSES: &[&str] = &[
     "flip", "truncate", "append", "delete", "swap_in_range", "swap_across_range", "copy_over",
     "copy_over_from_out_of_range", "foreign", "extra_files", "alias_certified_content", "alias_foreign_content",
     "dir_in_place", "symlink_to_other_certified", "symlink_to_outside_foreign", "symlink_to_same_content",
-    "out_of_range_tamper", "beyond_beacon_tamper", "multi", "decoy_immutable_dir",
+    "out_of_range_tamper", "beyond_beacon_tamper", "multi", "decoy_immutable_dir", "out_of_range_delete_plus_in_range_tamper",
 ];
 pub const LIST_CLASSES: &[&str] = &[
     "list_reorder", "list_rename_order_preserving", "list_rename_arbitrary", "list_drop", "list_add_in_range",
@@ -448,6 +448,44 @@ fn gen_dir_op(rng: &mut ChaCha20Rng, w: &World, class: &str, lo: u64, hi: u64) -
                 1 => vec![DirOp::Foreign { name, len: rnd::range(rng, 0, 512) as usize }],
                 _ => vec![DirOp::Append { name, extra: 3 }],
             }
+        }
+        "out_of_range_delete_plus_in_range_tamper" => {
+            // two cooperating edits: the listing outside the requested range loses 1-2 files (an
+            // incomplete trio just below / above the range, or anywhere outside), and a file at the
+            // boundary of the range (its first or last file, or any) is altered. A selection of the
+            // files to hash that depends on what lies outside the range only shows with both.
+            if out_of_range.is_empty() {
+                return None;
+            }
+            let mut v = vec![];
+            let below: Vec<String> = if lo > 0 { trio(lo - 1).into_iter().filter(|n| out_of_range.contains(n)).collect() } else { vec![] };
+            let above: Vec<String> = trio(hi + 1).into_iter().filter(|n| out_of_range.contains(n)).collect();
+            let k = rnd::range(rng, 1, 2);
+            for _ in 0..k {
+                let pool = match rnd::below(rng, 4) {
+                    0 | 1 if !below.is_empty() => &below,
+                    2 if !above.is_empty() => &above,
+                    _ => &out_of_range,
+                };
+                let name = rnd::pick(rng, pool).clone();
+                if !v.iter().any(|o| matches!(o, DirOp::Delete { name: n } if *n == name)) {
+                    v.push(DirOp::Delete { name });
+                }
+            }
+            let mut sorted = inr.clone();
+            sorted.sort();
+            let target = match rnd::below(rng, 4) {
+                0 | 1 => sorted.first().cloned()?,
+                2 => sorted.last().cloned()?,
+                _ => rnd::pick(rng, &inr).clone(),
+            };
+            let l = w.contents[&target].len();
+            v.push(match rnd::below(rng, 3) {
+                0 if l > 0 => DirOp::Flip { name: target, offset: rnd::usize_below(rng, l) },
+                1 => DirOp::Foreign { name: target, len: rnd::range(rng, 0, 2048) as usize },
+                _ => DirOp::Append { name: target, extra: rnd::range(rng, 1, 64) as usize },
+            });
+            v
         }
         "beyond_beacon_tamper" => {
             let n = w.beacon + rnd::range(rng, 1, 3);
@@ -1176,7 +1214,7 @@ pub fn case_plan(rng: &mut ChaCha20Rng, per_world: usize) -> Vec<String> {
         plan.push(c.to_string());
     }
     while plan.len() < per_world {
-        let heavy = ["swap_in_range", "copy_over", "flip", "delete", "coordinated_rank_shift", "truncate", "foreign", "multi"];
+        let heavy = ["swap_in_range", "copy_over", "flip", "delete", "coordinated_rank_shift", "truncate", "foreign", "multi", "out_of_range_delete_plus_in_range_tamper"];
         let c = if rnd::chance(rng, 1, 2) {
             rnd::pick(rng, &heavy).to_string()
         } else if rnd::chance(rng, 1, 2) {
